@@ -103,9 +103,9 @@ CHECKS = {
              "synthetic ids, index hydration) by the correspondence: Eng.openInst and the real engine run the same ~600 restart histories per quick run and must "
              "agree with AEngR operation by operation across every restart. C06_walk_recovers_laid_block (storage-level model: the entry walk of the recovery scan over one block returns exactly the entries laid out back to back in it and their extent, whatever else "
              "the file holds), C06_scan_recovers_laid_file (the scan of a file in which blocks lie back to back - each sized by its first entry, entries back to back, unallocated space after the last - registers "
-             "exactly those blocks in file order with consecutive ids, exact `used` and entry counts, and stops), C06_friendly_appends_are_recovered / C06_friendly_append_programs_are_recovered / C06_friendly_programs_are_recovered (end to end on the storage-level model; the latter two on programs of Eng.step starting from what `open` on an empty directory produces, the last with reads of both APIs, counts and single-entry batch appends - the call the data plane makes - anywhere in the program: from an instance on a fresh file, "
+             "exactly those blocks in file order with consecutive ids, exact `used` and entry counts, and stops), C06_friendly_appends_are_recovered / C06_friendly_append_programs_are_recovered / C06_friendly_programs_are_recovered (end to end on the storage-level model; the latter two on programs of Eng.step starting from what `open` on an empty directory produces, the last with reads of both APIs, counts, single-entry batch appends - the call the data plane makes - and general batches of one-unit entries (lemmas plan_friendly / batch_friendly / layout_placeAll / diskInv_batch) anywhere in the program: from an instance on a fresh file, "
              "any sequence of successful single-entry appends to any topics - ordinary names, entries of at most one unit, within one file - leaves a file whose scan registers blocks that hold, topic by topic and in order, "
-             "exactly the appended entries: invariant DiskInv (blocks back to back, no stray cell, every writer on the last block of its topic) preserved by appendForTopic, lemma append_friendly). C06_recovered_chains: the reader chain of every topic then lists exactly that topic's blocks, in file order, with exact extents. Not proved: batches, "
+             "exactly the appended entries: invariant DiskInv (blocks back to back, no stray cell, every writer on the last block of its topic) preserved by appendForTopic, lemma append_friendly). C06_recovered_chains: the reader chain of every topic then lists exactly that topic's blocks, in file order, with exact extents. Not proved: batches that fail or are rolled back, "
              "multi-unit entries, file roll-over, faults on the write side, the listing/sorting of files and the cursor hydration of `open` (there the tie is the correspondence); AtLeastOnce restarts (oracle only). False on this "
              "tree in three regions, reported as KNOWN-FINDING with corpus witnesses: emptyBlockAllocated, scanStopsAtEmptyBlock, clockRegressionReordersFiles "
              "(the statement's 'any wall-clock behaviour'); a fourth, sealThenAllocFail, is repaired.",
